@@ -56,6 +56,10 @@ def setup():
             self.fail_at = params.get("source-fails-at")
 
         def partition(self, partition_index, total_partitions):
+            if self._params.get("partition-cost"):
+                import time
+
+                time.sleep(self._params["partition-cost"])  # (virtual) time spent setting this client up
             p = VerifSource(self.track, self._params)
             p._client = partition_index
             p._total = total_partitions
